@@ -115,6 +115,17 @@ def judge(chk, sc, o):
                               'without keep_alive every working instance runs init and exit', input_class='hooks_without_keep_alive')
         prev_tokens, prev_ka, prev_restarted = set(oo.get('instances_alive') or []) | toks, ka, restarted
         prev_inited = {c[3] for c in calls if c[1] == 'init' and c[0] <= opi}
+    # the deferred worker_exit is not lost: once stop_and_join() has returned, every instance that ran a task has run its exit
+    # function exactly once (at retirement or now)
+    if sc['ops'] and sc['ops'][-1]['op'] == 'stop_and_join' and len(o.get('ops', [])) == len(sc['ops']) and o['ops'][-1].get('outcome') == 'ok' \
+            and all(op.get('exit') for op in sc['ops'] if op['op'] in oracles.MAPS) and all(x.get('outcome') == 'ok' for x in o['ops']):
+        import collections
+        worked = {c[3] for c in calls if c[1] == 'task'}
+        exits = collections.Counter(c[3] for c in calls if c[1] == 'exit')
+        bad = {str(t): exits.get(t, 0) for t in worked if exits.get(t, 0) != 1}
+        if bad:
+            chk.violation('deferred_exit_runs_at_join', case, {'exit_calls_per_instance_that_worked': bad},
+                          'worker_exit is deferred until stop_and_join / pool exit, where it runs once for every instance that worked', input_class='deferred_exit')
 
 
 def run(chk):
